@@ -583,11 +583,16 @@ class NumpyMixin:
             axiom(z3.And(r >= 0, r <= PI))
         elif name in ("arctan2", "atan2"):
             axiom(z3.And(r >= -PI, r <= PI))
+            if len(args) == 2:
+                # right half plane (second argument >= 0): the angle is within a quarter turn
+                axiom(z3.Implies(args[1] >= 0, z3.And(r >= -HALFPI, r <= HALFPI)))
+        elif name in ("arctan", "atan"):
+            axiom(z3.And(r >= -HALFPI, r <= HALFPI, z3.Implies(x > 0, r > 0), z3.Implies(x < 0, r < 0)))
         elif name in ("log", "log10"):
             domain(x > 0, "log-domain")
         elif name in ("exp",):
             axiom(r > 0)
-        elif name in ("sinh", "cosh", "tan", "arctan", "pow", "floor_real"):
+        elif name in ("sinh", "cosh", "tan", "pow", "floor_real"):
             pass
         elif name == "abs":
             return z3.If(x >= 0, x, -x)
